@@ -100,7 +100,15 @@ Definition client_scan_request (base : bytes) (full : bool) : scan_request :=
 (* server.go serveScan: the endpoint is asked with a nil ancestor and the
    request's full flag; an endpoint error is passed on with its try-again flag,
    a snapshot is serialised deterministically and deltified against THE
-   REQUEST'S signature (the server keeps no baseline of its own). *)
+   REQUEST'S signature (the server keeps no baseline of its own).
+   Cancellation: when the caller's context is cancelled the client sends its
+   completion request early and the server cancels the context it handed to
+   the endpoint's Scan; that only influences WHICH answer the endpoint gives.
+   Whatever the answer is, it is passed on as it is -- in particular the
+   try-again flag of an error does not depend on whether the scan was
+   preempted (the answer function below has no access to that fact), so
+   c21_scan_history covers cancelled scans: they are histories whose answer
+   happens to be the one the endpoint gives when preempted. *)
 Definition server_scan (answer : bool -> scan_answer) (rq : scan_request) : scan_response :=
   match answer (rq_full rq) with
   | SAErr msg t => {| rs_delta := delta_nil; rs_error := msg; rs_try := t |}
